@@ -56,6 +56,25 @@ def operand_shapes(rng, result, n):
     return shapes
 
 
+def broadcast_to_source(rng, target):
+    """operand shape for broadcast_to(x, target): mostly admissible; also the two rejected regions —
+    an operand with MORE axes than the target (fixed upstream in 13786a7: must raise like NumPy) and a
+    target extent that would have to be stretched/incompatible."""
+    (src,) = operand_shapes(rng, target, 1)
+    r = rng.random()
+    if r < 0.2:
+        # more axes than the target: a trailing part that is compatible with the target, extra leading axes
+        tail = tuple(1 if (d != 1 and rng.random() < 0.3) else d for d in target)
+        extra = tuple(int(v) for v in rng.choice([1, 1, 2, 3], size=int(rng.integers(1, 3))))
+        return extra + tail, "more-axes"
+    if r < 0.3 and len(target) > 0:
+        s = list(src) if len(src) == len(target) else list(target)
+        a = int(rng.integers(len(s)))
+        s[a] = target[a] + 1 if target[a] != 0 else 2  # operand extent differs from the target's and is not 1 (or target is 1: stretch)
+        return tuple(s), "incompatible"
+    return src, "regular"
+
+
 def t1_validate(ctx):
     from sparse.numba_backend._umath import _get_broadcast_shape
 
@@ -87,14 +106,18 @@ def leg_a(ctx, rng, n):
     for _ in range(n):
         res = gen.shape(rng, 0, 4, extents=[0, 1, 2, 2, 3, 3, 4], max_size=150)
         if rng.random() < 0.35:
-            # broadcast_to
-            (src,) = operand_shapes(rng, res, 1)
+            # broadcast_to (incl. operands with more axes than the target and incompatible extents)
+            src, region = broadcast_to_source(rng, res)
+            if int(np.prod(src, dtype=np.int64)) > 600:
+                continue
             fill = int(rng.choice([0, 0, 2]))
             try:
                 x = sparse.COO.from_numpy(gen.dense(rng, src, fill), fill_value=fill)
             except Exception:  # noqa: BLE001
                 continue
-            case = {"op": "broadcast_to", "x": impl.coo_json(x), "shape": list(res)}
+            case = {"op": "broadcast_to", "x": impl.coo_json(x), "shape": list(res), "region": region}
+            reg = ctx.cov.setdefault("broadcast_to_regions", {})
+            reg["A:" + region] = reg.get("A:" + region, 0) + 1
             try:
                 want = {"ok": impl.coo_json(sparse.broadcast_to(x, res))}
             except ValueError:
@@ -248,6 +271,31 @@ def leg_c(ctx, rng, n):
             core.log(f"C01 leg C {it}/{n}")
 
 
+def leg_c_broadcast(ctx, rng, n):
+    """broadcast_to against np.broadcast_to: shape, fill, every element, canonical representation; and
+    ValueError wherever NumPy rejects (stretched/incompatible extent, operand with more axes than the target)."""
+    import sparse
+
+    for _ in range(n):
+        res = gen.shape(rng, 0, 4, extents=[0, 1, 2, 2, 3, 3], max_size=120)
+        src, region = broadcast_to_source(rng, res)
+        if int(np.prod(src, dtype=np.int64)) > 600:
+            continue
+        dt = rng.choice(DTYPES)
+        d, f = typed_dense(rng, src, dt, rng.choice([0, 0, 1, 2]))
+        x = sparse.COO.from_numpy(d, fill_value=f)
+        how = str(rng.choice(["method", "function"]))
+        case = {"func": "broadcast_to", "how": how, "region": region, "operand": {"dense": d.tolist(), "dtype": str(d.dtype), "fill": repr(f)},
+                "shape": list(res)}
+        ctx.case("C:broadcast_to", case)
+        reg = ctx.cov.setdefault("broadcast_to_regions", {})
+        reg["C:" + region] = reg.get("C:" + region, 0) + 1
+        it_ = (lambda x=x, res=res: x.broadcast_to(res)) if how == "method" else (lambda x=x, res=res: sparse.broadcast_to(x, res))
+        msg = oracle.compare(it_, lambda d=d, res=res: np.broadcast_to(d, res), fill=f, err_ok=("value",))
+        if msg:
+            ctx.fail("C", "broadcast_to", case, msg, finding=findings.classify(PID, "broadcast_to", case, msg))
+
+
 OPS = {"op+": operator.add, "op-": operator.sub, "op*": operator.mul, "op/": operator.truediv, "op//": operator.floordiv, "op**": operator.pow,
        "op%": operator.mod, "op&": operator.and_, "op|": operator.or_, "op^": operator.xor, "op<": operator.lt, "op>=": operator.ge,
        "op==": operator.eq, "op!=": operator.ne}
@@ -353,7 +401,10 @@ def run(ctx):
     rng = gen.rng_for(ctx.seed, PID)
     leg_a(ctx, rng, 700 if ctx.quick else 7000)
     leg_c(ctx, rng, 700 if ctx.quick else 8000)
-    ctx.cov["rule"] = ("T1: all shape pairs (<=3 axes, extents 0..3) x is_result through the generated rule; leg A: broadcast_to and 20 scalar functions "
+    leg_c_broadcast(ctx, gen.rng_for(ctx.seed, PID + ":broadcast_to"), 250 if ctx.quick else 4000)
+    ctx.cov["rule"] = ("T1: all shape pairs (<=3 axes, extents 0..3) x is_result through the generated rule; leg A: broadcast_to (admissible targets, incompatible "
+                       "extents, operands with more axes than the target) and 20 scalar functions "
                        "(arity 1-3) on COO/dense/scalar operand mixes with broadcastable shapes, model vs implementation on representation and on the "
                        "sparse/dense/ValueError decision; leg C: 67 ufuncs, 14 operators, 8 methods, where x 9 dtypes x COO/GCXS/DOK/scipy/ndarray/scalar "
-                       "vs NumPy; non-trivial = at least one sparse operand; distinct by content hash")
+                       "vs NumPy, and COO.broadcast_to / sparse.broadcast_to vs np.broadcast_to over the same three regions (ValueError wherever NumPy raises); "
+                       "non-trivial = at least one sparse operand; distinct by content hash")
